@@ -247,3 +247,78 @@ Example C15_unit_counters_example :
    rm_ioerr (router_metrics x.2), unit_final x)
   = ([0; 0; 1; 0; 2; 0; 0], 3, 1, 3, MkUM None 1).
 Proof. vm_compute. reflexivity. Qed.
+
+(* ---- the bgp-tcp-in unit's own counters (src/units/bgp_tcp_in/status_reporter.rs, metrics.rs) on the
+   select! loop of Processor::process (Bgp/BgpSessionModel.v bm_step / bsm_loop / bsm_process; engine
+   bgpend, op M) ---- *)
+From RV Require Bgp.BgpSessionModel Bgp.BgpSessionProofs.
+
+(* the loop with the counters is the loop of C02 / C07: same state, same events left over *)
+Theorem C15_bgp_counters_loop_is_the_session_loop : forall id key live0 m0 evs,
+  ((BgpSessionModel.bsm_process id key live0 m0 evs).1.1, (BgpSessionModel.bsm_process id key live0 m0 evs).2)
+  = BgpSessionModel.bs_process id key live0 evs.
+Proof. exact BgpSessionProofs.bsm_process_refines. Qed.
+Print Assumptions C15_bgp_counters_loop_is_the_session_loop.
+
+(* for every script and whatever the unit's counters were when the session started: each counter grew by
+   the number of matching events among those the loop handled (ConnectionLost with or without a socket
+   address; Terminate and "this peer is no longer configured") *)
+Theorem C15_bgp_counters_count : forall id key live0 m0 evs,
+  let taken := BgpSessionModel.bs_taken id key (BgpSessionModel.bs_init live0) evs in
+  let m := (BgpSessionModel.bsm_process id key live0 m0 evs).1.2 in
+  BgpSessionModel.bm_lost m = BgpSessionModel.bm_lost m0 + BgpSessionModel.bs_count BgpSessionModel.bs_is_lost taken /\
+  BgpSessionModel.bm_disc m = BgpSessionModel.bm_disc m0 + BgpSessionModel.bs_count BgpSessionModel.bs_is_disc taken.
+Proof. exact BgpSessionProofs.bgp_counters_count. Qed.
+Print Assumptions C15_bgp_counters_count.
+
+(* the handled events are the script minus what the loop did not get to *)
+Theorem C15_bgp_taken_is_the_handled_prefix : forall id key evs s,
+  BgpSessionModel.bs_taken id key s evs ++ (BgpSessionModel.bs_loop id key s evs).2 = evs.
+Proof. exact BgpSessionProofs.bs_taken_prefix. Qed.
+Print Assumptions C15_bgp_taken_is_the_handled_prefix.
+
+(* connection_lost_count grows by one exactly for a session whose loop was left through the ConnectionLost
+   arm - whichever side noticed the loss (Some addr: routecore's reader; None: rotonda's PDU writer task) *)
+Theorem C15_bgp_lost_count_counts_every_loss : forall id key live0 m0 evs,
+  BgpSessionModel.bm_lost (BgpSessionModel.bsm_process id key live0 m0 evs).1.2 =
+  BgpSessionModel.bm_lost m0 + (if BgpSessionModel.bs_ended_by_loss id key live0 evs then 1 else 0).
+Proof. exact BgpSessionProofs.bgp_lost_count_counts_every_loss. Qed.
+Print Assumptions C15_bgp_lost_count_counts_every_loss.
+
+(* over the sessions a unit serves on its shared counters: lost = number of sessions that ended by a lost
+   connection (what `accepted - lost` needs to mean "connections still there") *)
+Theorem C15_bgp_unit_lost_counts_sessions : forall id key sessions m,
+  BgpSessionModel.bm_lost (BgpSessionModel.bsm_unit id key m sessions) =
+  BgpSessionModel.bm_lost m +
+  N.of_nat (length (List.filter (fun x => BgpSessionModel.bs_ended_by_loss id key x.1 x.2) sessions)).
+Proof. exact BgpSessionProofs.bgp_unit_lost_counts_sessions. Qed.
+Print Assumptions C15_bgp_unit_lost_counts_sessions.
+
+Theorem C15_bgp_counters_monotone : forall id key live0 m0 evs,
+  BgpSessionModel.bm_lost m0 <= BgpSessionModel.bm_lost (BgpSessionModel.bsm_process id key live0 m0 evs).1.2 /\
+  BgpSessionModel.bm_disc m0 <= BgpSessionModel.bm_disc (BgpSessionModel.bsm_process id key live0 m0 evs).1.2.
+Proof. exact BgpSessionProofs.bgp_counters_monotone. Qed.
+Print Assumptions C15_bgp_counters_monotone.
+
+(* the variant in which peer_connection_lost(None) returns before the counter (seeded change C15-c2): an
+   established session ended by ConnectionLost(None) leaves the counter at 0; the model of the code counts 1 *)
+Theorem C15_bgp_lost_early_return_refuted :
+  BgpSessionModel.bs_ended_by_loss 7 5 ∅ BgpSessionProofs.bgp_lost_witness = true /\
+  BgpSessionModel.bm_lost (BgpSessionModel.bsm_loop_with BgpSessionModel.bm_step_early_return 7 5
+     (BgpSessionModel.bs_init ∅) (BgpSessionModel.MkMet 0 0) BgpSessionProofs.bgp_lost_witness) = 0 /\
+  BgpSessionModel.bm_lost (BgpSessionModel.bsm_process 7 5 ∅ (BgpSessionModel.MkMet 0 0) BgpSessionProofs.bgp_lost_witness).1.2 = 1.
+Proof. exact BgpSessionProofs.bgp_lost_early_return_refuted. Qed.
+Print Assumptions C15_bgp_lost_early_return_refuted.
+
+(* a session that is told to shut down (counted as a disconnect), goes on, sees its peer's entry change (no
+   count), and is then lost without a socket address; the next ConnectionLost is never looked at; four sessions
+   of one unit: two lost, two disconnects *)
+Example C15_bgp_counters_example :
+  let evs := [BgpSessionModel.BNegotiate; BgpSessionModel.BMsgNegotiated; BgpSessionModel.BTerminate; BgpSessionModel.BTick;
+              BgpSessionModel.BReconf BgpSessionModel.BRPeer; BgpSessionModel.BMsgLost false; BgpSessionModel.BMsgLost true] in
+  (BgpSessionModel.bsm_process 7 5 {[6]} (BgpSessionModel.MkMet 3 1) evs).1.2 = BgpSessionModel.MkMet 4 2 /\
+  (BgpSessionModel.bsm_process 7 5 {[6]} (BgpSessionModel.MkMet 3 1) evs).2 = [BgpSessionModel.BMsgLost true] /\
+  BgpSessionModel.bsm_unit 7 5 (BgpSessionModel.MkMet 0 0)
+    [(∅, evs); (∅, [BgpSessionModel.BNegotiate; BgpSessionModel.BTickErr 0]);
+     (∅, [BgpSessionModel.BReconf BgpSessionModel.BRGone]); (∅, [BgpSessionModel.BMsgLost true])] = BgpSessionModel.MkMet 2 2.
+Proof. exact BgpSessionProofs.bgp_counters_example. Qed.
